@@ -1,0 +1,21 @@
+//go:build verif
+
+package uuid
+
+// Verification hook (build tag `verif` only): read and overwrite the fields of a SeqIDGen, so that the arithmetic of
+// reload / Next can be run on chosen field values (the translator check of the verification harness). Nothing here is
+// compiled without the tag.
+
+// VerifSetState overwrites (step, counter, lastID).
+func (s *SeqIDGen) VerifSetState(step, counter, lastID int64) {
+	s.guard.Lock()
+	defer s.guard.Unlock()
+	s.step, s.counter, s.lastID = step, counter, lastID
+}
+
+// VerifState returns (step, counter, lastID).
+func (s *SeqIDGen) VerifState() (int64, int64, int64) {
+	s.guard.Lock()
+	defer s.guard.Unlock()
+	return s.step, s.counter, s.lastID
+}
